@@ -14,8 +14,8 @@ for writing (a NOTIFICATION was written on them, or read from them).  It refuses
 * (`strict` only) an UPDATE / End-of-RIB / ROUTE-REFRESH labelled with a state other than ESTABLISHED;
 * an `up` while an `up` is outstanding.
 
-`chkAll_run` : every run of the model passes the non-strict checker; the strict one under the
-hypothesis that excludes the stale main loop (finding F30).
+`run_acc` : every run of the model passes the checker, strict included (since /repo 3a62d00 the
+stale main loop writes nothing).
 -/
 namespace Exa.Session
 
@@ -430,36 +430,9 @@ theorem mainIter_acc {strict : Bool} {s : State} {g : G} (m : Option Msg) (h : R
   · exact onNotify_acc _ _ h
   · exact dflt
 
-/-- the stale main loop writes a ROUTE-REFRESH outside ESTABLISHED (finding F30): only the
-    non-strict checker accepts it. -/
-theorem staleIter_acc {s : State} {g : G} (h : Rel true s g) :
-    Acc false g (staleIter s) (fun s' g' => Rel true s' g') := by
-  unfold staleIter
-  simp only []
-  have hw : Acc false g
-      ((sendIf (fun s => decide (s.refreshQ > 0)) .refresh (fun s => { s with refreshQ := s.refreshQ - 1 }) s)
-        |>.andSend (fun s => (({ s with routesPending := false }, []), true))
-        |>.andSend (sendIf (fun s => s.eorPending) .keepalive (fun s => { s with eorPending := false }))).1
-      (fun s' g' => Rel true s' g' ∧ s'.fsm = s.fsm) := by
-    have a1 : Acc false g (sendIf (fun s => decide (s.refreshQ > 0)) .refresh (fun s => { s with refreshQ := s.refreshQ - 1 }) s).1
-        (fun s' g' => Rel true s' g' ∧ s'.fsm = s.fsm) :=
-      sendIf_acc _ .refresh _ rfl h (fun t => ⟨rfl, rfl, rfl, rfl⟩) (by simp)
-    have a2 := andSend_acc (f := fun s => (({ s with routesPending := false }, []), true)) a1 (by
-      intro g1 ⟨r1, f1⟩
-      exact Acc.pure ⟨r1.frame rfl rfl rfl rfl, f1⟩)
-    exact andSend_acc a2 (by
-      intro g1 ⟨r1, f1⟩
-      refine Acc.mono (sendIf_acc _ .keepalive _ rfl r1 (fun t => ⟨rfl, rfl, rfl, rfl⟩) (by simp)) ?_
-      intro s' g' ⟨r, f⟩; exact ⟨r, by rw [f, f1]⟩)
-  split
-  · refine Acc.seq hw ?_
-    intro g1 ⟨r1, _⟩
-    split
-    · exact Acc.pure r1
-    · split
-      · exact onOther_acc r1
-      · exact onNotify_acc _ _ r1
-  · exact Acc.seq hw (fun g1 p1 => onNetErr_acc p1.1)
+/-- the stale main loop ends with `Interrupted`: nothing is written. -/
+theorem staleIter_acc {strict : Bool} {s : State} {g : G} (h : Rel true s g) :
+    Acc strict g (staleIter s) (fun s' g' => Rel true s' g') := onOther_acc h
 
 /-! ## delivery, the events, whole runs -/
 
@@ -564,19 +537,6 @@ theorem advance_acc {strict : Bool} : ∀ (n : Nat) (s : State) (g : G), Rel tru
             exact advance_acc n _ g1 r1 (deliver_inv m _ hinv' c { k with inbox := rest } (by simpa [awaited] using haw) rfl hk)
         · rw [if_neg hk]; exact Acc.pure h
 
-/-- the main loop reads a connection that is no longer `peer.proto`, and `peer.proto` is another
-    one (`_stop` then `handle_connection`): the F30 situation in ESTABLISHED. -/
-def staleAdopted (s : State) : Bool :=
-  match s.pc, s.conn with
-  | .mainLoop c, some k => k.id != c
-  | _, _ => false
-
-def StaleAdopted (s : State) : Prop := staleAdopted s = true
-
-theorem staleAdopted_intro {s : State} {c : Nat} {k : Conn} (hp : s.pc = .mainLoop c) (hc : s.conn = some k)
-    (hk : k.id ≠ c) : StaleAdopted s := by
-  simp [StaleAdopted, staleAdopted, hp, hc, hk]
-
 theorem Rel.adopt {s : State} {g : G} (h : Rel true s g) (hc : s.conn = none) :
     Rel true { s with conn := some { id := s.nextId }, nextId := s.nextId + 1 } g := by
   refine ⟨h.fsm, h.up, fun i hi => Nat.lt_succ_of_lt (h.ids i hi), ?_, ?_, ?_⟩
@@ -625,54 +585,16 @@ theorem handleConnection_acc {strict : Bool} {s : State} {g : G} (h : Rel true s
       · exact Or.inr (by simp at hi ⊢; omega)
   · exact adopt_acc h
 
-/-- an iteration on the connection in use either ends the session or leaves the loop where it was. -/
-theorem mainIter_keeps (m : Option Msg) (s : State) (hf : s.fsm = .established) :
-    ((mainIter m s).1.pc = .backoff ∨ (mainIter m s).1.pc = .done) ∨
-    ((mainIter m s).1.pc = s.pc ∧ (mainIter m s).1.conn = s.conn) := by
-  have hup : ∀ t : State, t.fsm = .established → (t.isUp = true → t.fsm = .established) := fun t h _ => h
-  have tail : ((mainTail (mainPre m s)).1.pc = .backoff ∨ (mainTail (mainPre m s)).1.pc = .done) ∨
-      ((mainTail (mainPre m s)).1.pc = s.pc ∧ (mainTail (mainPre m s)).1.conn = s.conn) := by
-    obtain ⟨hsame, hok, hfail⟩ := mainSends_spec (mainPre m s)
-    unfold mainTail
-    cases hw : (mainSends (mainPre m s)).2
-    · simp only [Bool.false_eq_true, if_false, andThen_fst]
-      exact Or.inl (onNetErr_ended _ (hup _ (by rw [hsame.fsm]; exact hf))).pc
-    · simp only [if_true, andThen_fst]
-      unfold mainExit
-      cases htd : (mainSends (mainPre m s)).1.1.teardown with
-      | none => exact Or.inr ⟨hsame.pc, hok hw⟩
-      | some code =>
-        simp only []
-        split
-        · rw [andThen_fst]
-          exact Or.inl (onNetErr_ended _ (by rw [closeP_fst]; simp [quietFsm, hsame.fsm, show (mainPre m s).fsm = s.fsm from rfl, hf])).pc
-        · exact Or.inl (onNotify_ended _ _ _ (hup _ (by rw [hsame.fsm]; exact hf))).pc
-  unfold mainIter
-  split
-  · exact Or.inl (onNotify_ended _ _ _ (hup s hf)).pc
-  · exact Or.inl (onNotification_ended _ (hup s hf)).pc
-  · exact Or.inl (onNotify_ended _ _ _ (hup s hf)).pc
-  · exact Or.inl (onNotify_ended _ _ _ (hup s hf)).pc
-  · split
-    · exact Or.inl (onNotify_ended _ _ _ (hup s hf)).pc
-    · exact tail
-
-theorem mainIter_not_stale (m : Option Msg) (s : State) (c : Nat) (k : Conn) (hf : s.fsm = .established)
-    (hp : s.pc = .mainLoop c) (hc : s.conn = some k) (hk : k.id = c) : ¬StaleAdopted (mainIter m s).1 := by
-  rcases mainIter_keeps m s hf with h | ⟨h1, h2⟩
-  · rcases h with h | h <;> simp [StaleAdopted, staleAdopted, h]
-  · simp [StaleAdopted, staleAdopted, h1, h2, hp, hc, hk]
-
 theorem drainMain_acc {strict : Bool} : ∀ (n : Nat) (s : State) (g : G), Rel true s g → Inv s →
-    (strict = true → ¬StaleAdopted s) → Acc strict g (drainMain n s) (fun s' g' => Rel true s' g')
-  | 0, s, g, h, _, _ => Acc.pure h
-  | n + 1, s, g, h, hinv, hns => by
+    Acc strict g (drainMain n s) (fun s' g' => Rel true s' g')
+  | 0, s, g, h, _ => Acc.pure h
+  | n + 1, s, g, h, hinv => by
     unfold drainMain
     cases hp : s.pc with
     | mainLoop c =>
       simp only []
       cases hc : s.conn with
-      | none => exact Acc.pure h
+      | none => exact staleIter_acc h
       | some k =>
         simp only []
         by_cases hk : k.id = c
@@ -680,14 +602,11 @@ theorem drainMain_acc {strict : Bool} : ∀ (n : Nat) (s : State) (g : G), Rel t
           have hf := (hinv.main c k hp hc hk).1
           refine Acc.seq (mainIter_acc none h (fun _ => hf)) ?_
           intro g1 r1
-          exact drainMain_acc n _ g1 r1 (mainIter_inv _ s hinv hf) (fun _ => mainIter_not_stale none s c k hf hp hc hk)
+          exact drainMain_acc n _ g1 r1 (mainIter_inv _ s hinv hf)
         · rw [if_neg hk]
-          cases strict with
-          | true => exact (hns rfl (staleAdopted_intro hp hc hk)).elim
-          | false =>
-            refine Acc.seq (staleIter_acc h) ?_
-            intro g1 r1
-            exact drainMain_acc n _ g1 r1 (staleIter_inv s hinv (by rw [hp]; simp)) (by simp)
+          refine Acc.seq (staleIter_acc h) ?_
+          intro g1 r1
+          exact drainMain_acc n _ g1 r1 (staleIter_inv s hinv (by rw [hp]; simp))
     | backoff => exact Acc.pure h
     | done => exact Acc.pure h
     | passiveWait => exact Acc.pure h
@@ -695,15 +614,8 @@ theorem drainMain_acc {strict : Bool} : ∀ (n : Nat) (s : State) (g : G), Rel t
     | awaitOpen c => exact Acc.pure h
     | awaitKa c => exact Acc.pure h
 
-theorem react_acc {strict : Bool} {s : State} {g : G} (e : Event) (h : Rel true s g) (hinv : Inv s)
-    (hns : strict = true → ¬StaleAdopted s) :
+theorem react_acc {strict : Bool} {s : State} {g : G} (e : Event) (h : Rel true s g) (hinv : Inv s) :
     Acc strict g (react s e) (fun s' g' => Rel true s' g') := by
-  have stale : ∀ c k, s.pc = .mainLoop c → s.conn = some k → k.id ≠ c →
-      Acc strict g (staleIter s) (fun s' g' => Rel true s' g') := by
-    intro c k hp hc hk
-    cases strict with
-    | false => exact staleIter_acc h
-    | true => exact (hns rfl (staleAdopted_intro hp hc hk)).elim
   cases e with
   | start =>
     simp only [react]
@@ -791,7 +703,7 @@ theorem react_acc {strict : Bool} {s : State} {g : G} (e : Event) (h : Rel true 
     · rename_i c hp
       split
       · exact Acc.pure h
-      · refine Acc.seq (drainMain_acc _ s g h hinv hns) ?_
+      · refine Acc.seq (drainMain_acc _ s g h hinv) ?_
         intro g1 r1
         split
         · exact onNotify_acc _ _ r1
@@ -802,14 +714,13 @@ theorem react_acc {strict : Bool} {s : State} {g : G} (e : Event) (h : Rel true 
     split
     · rename_i c hp
       cases hc : s.conn with
-      | none => exact onOther_acc h
+      | none => exact staleIter_acc h
       | some k =>
         simp only []
         split
         · rename_i hk
           exact mainIter_acc _ h (fun _ => (hinv.main c k hp hc hk).1)
-        · rename_i hk
-          exact stale c k hp hc hk
+        · exact staleIter_acc h
     · exact Acc.pure h
   | teardown code => exact Acc.pure (h.frame rfl rfl rfl rfl)
   | reestablish => exact Acc.pure (h.frame rfl rfl rfl rfl)
@@ -822,37 +733,21 @@ theorem react_acc {strict : Bool} {s : State} {g : G} (e : Event) (h : Rel true 
   | queueRefresh => exact Acc.pure (h.frame rfl rfl rfl rfl)
   | announce => exact Acc.pure (h.frame rfl rfl rfl rfl)
 
-theorem step_acc {strict : Bool} {s : State} {g : G} (e : Event) (h : Rel true s g) (hinv : Inv s)
-    (hns : strict = true → ¬StaleAdopted s) :
+theorem step_acc {strict : Bool} {s : State} {g : G} (e : Event) (h : Rel true s g) (hinv : Inv s) :
     Acc strict g (step s e) (fun s' g' => Rel true s' g') := by
   unfold step
-  refine Acc.seq (react_acc e h hinv hns) ?_
+  refine Acc.seq (react_acc e h hinv) ?_
   intro g1 r1
   exact advance_acc _ _ g1 r1 (react_inv s e hinv)
 
-/-- no state along the run is in the stale main loop with an adopted connection. -/
-def noStale : State → List Event → Bool
-  | s, [] => !staleAdopted s
-  | s, e :: es => !staleAdopted s && noStale (step s e).1 es
-
-def NoStale (s : State) (evs : List Event) : Prop := noStale s evs = true
-
-theorem NoStale.head {s : State} {e : Event} {es : List Event} (h : NoStale s (e :: es)) : ¬StaleAdopted s := by
-  simp only [NoStale, noStale, Bool.and_eq_true, Bool.not_eq_true'] at h
-  simp [StaleAdopted, h.1]
-
-theorem NoStale.tail {s : State} {e : Event} {es : List Event} (h : NoStale s (e :: es)) : NoStale (step s e).1 es := by
-  simp only [NoStale, noStale, Bool.and_eq_true] at h
-  exact h.2
-
 theorem run_acc {strict : Bool} : ∀ (evs : List Event) (s : State) (g : G), Rel true s g → Inv s →
-    (strict = true → NoStale s evs) → Acc strict g (run s evs) (fun s' g' => Rel true s' g')
-  | [], s, g, h, _, _ => Acc.pure h
-  | e :: es, s, g, h, hinv, hns => by
+    Acc strict g (run s evs) (fun s' g' => Rel true s' g')
+  | [], s, g, h, _ => Acc.pure h
+  | e :: es, s, g, h, hinv => by
     unfold run
-    refine Acc.seq (step_acc e h hinv (fun hs => (hns hs).head)) ?_
+    refine Acc.seq (step_acc e h hinv) ?_
     intro g1 r1
-    exact run_acc es _ g1 r1 (step_inv s e hinv) (fun hs => (hns hs).tail)
+    exact run_acc es _ g1 r1 (step_inv s e hinv)
 
 def g0 : G := { fsm := .idle, up := false, dead := [] }
 
